@@ -6,7 +6,7 @@ import json
 
 class Harness:
     def __init__(self, name, prop, desc, cfg=(), tiers=("quick", "thorough"), unwind=None,
-                 fsa=None, timeout=900, expect="pass", stub_utf8=True, unwindset=None, bounds=None,
+                 fsa=None, timeout=900, expect="pass", stub_utf8="assume", unwindset=None, bounds=None,
                  requires=(), forbids=()):
         self.name = name            # function name (module prefix added by the runner)
         self.prop = prop
@@ -53,10 +53,16 @@ class Harness:
         return v, ex
 
     def sym_utf8(self, n, p="s"):
+        """symbolic text: any well-formed UTF-8 of exactly n bytes.  With the "assume" stub the
+        validity assumption is made by the stub at the point the decoder validates the text; for
+        encode-side harnesses (no decoder in front) it is stated here."""
         v, ex = self.sym_bytes(n, p)
-        if n:
+        if n and self.stub_utf8 != "assume":
             self.decl.append("kani::assume(crate::utf8::is_valid(&%s));" % v)
         return v, ex
+
+    def sym_text(self, n, mode, p="s"):
+        return self.sym_ascii(n, p) if mode == "ascii" else self.sym_utf8(n, p)
 
     def sym_uint(self, lo, hi, p="n"):
         v = self.fresh(p)
@@ -88,7 +94,10 @@ class Harness:
         if self.unwind:
             attrs.append("#[kani::unwind(%d)]" % self.unwind)
         if self.stub_utf8:
-            attrs.append("#[kani::stub(core::str::from_utf8, crate::utf8::from_utf8_ref)]")
+            # "assume": inputs well-formed by assumption (constant-preserving); "branch": the
+            # reference validator, both outcomes explored (see harness/src/utf8.rs)
+            fn = "from_utf8_assume_valid" if self.stub_utf8 == "assume" else "from_utf8_ref"
+            attrs.append("#[kani::stub(core::str::from_utf8, crate::utf8::%s)]" % fn)
         src = ["/// %s" % self.desc.replace("\n", " ")] + attrs + ["fn %s() {" % self.name]
         for l in self.decl + self.body:
             src.append("    " + l)
